@@ -1423,6 +1423,16 @@ func elimRowCopy(asserts []*Term) []*Term {
 		m := map[*Term]*Term{}
 		var ax []*Term
 		for _, t := range order {
+			if t.Op == "constarr" && !t.bound && !isSMTValue(t.Args[0]) {
+				// cvc5 only accepts values in constant arrays: name the array and state its contents
+				v := Fresh("constarr", t.Sort)
+				m[t] = v
+				j := Bound("j", t.Sort.Idx)
+				if !relaxRowCopy {
+					ax = append(ax, mkForallRaw2([]*Term{j}, Eq(Select(v, j), t.Args[0]), [][]*Term{{Select(v, j)}}))
+				}
+				continue
+			}
 			if t.Op != "rowcopy" || t.bound {
 				continue
 			}
@@ -1437,6 +1447,9 @@ func elimRowCopy(asserts []*Term) []*Term {
 		if len(m) == 0 {
 			return asserts
 		}
+		if relaxRowCopy {
+			ax = nil // quantifier-free relaxation: the copied rows stay unconstrained
+		}
 		out := make([]*Term, 0, len(asserts)+len(ax))
 		for _, a := range ax {
 			out = append(out, Subst(a, m))
@@ -1448,6 +1461,19 @@ func elimRowCopy(asserts []*Term) []*Term {
 	}
 	return asserts
 }
+
+func isSMTValue(t *Term) bool {
+	switch t.Op {
+	case "const", "true", "false":
+		return true
+	case "constarr":
+		return isSMTValue(t.Args[0])
+	}
+	return false
+}
+
+// relaxRowCopy: set (under vcMu) while the quantifier-free relaxation of a VC is rendered
+var relaxRowCopy bool
 
 func mkForallRaw2(bvars []*Term, body *Term, pats [][]*Term) *Term {
 	if !body.bound {
